@@ -49,11 +49,18 @@ def showW (o : WriteOut) : String :=
   let f := match o.forwarded with | none => "nocall" | some b => hexEncode b
   s!"{f}/{o.n}/{o.err}"
 
+/-- `<hex>:<err>[:<k>]`; `k` is the (short) count the wrapped writer reports, which
+`TruncatedWriter.Write` ignores (`_, err = w.w.Write(b[:idx])`) -/
 def parseWrite (s : String) : Option (Bytes × Nat) :=
   match s.splitOn ":" with
   | [a, b] => do
     let d ← hexDecode a
     let e ← b.toNat?
+    pure (d, e)
+  | [a, b, k] => do
+    let d ← hexDecode a
+    let e ← b.toNat?
+    let _ ← k.toNat?
     pure (d, e)
   | _ => none
 
